@@ -226,7 +226,9 @@ static Req invalid_req(Rng &g, Pool &p, bool secret) {
       static const char *pfx[] = {"$6$rounds=", "$5$rounds=", "$md5,rounds=", "$2b$", "$2y$", "$2a$"};
       size_t k = g.below(6);
       std::string num = k < 3 ? std::to_string(g.range(1000, 9000)) : "05";
-      switch (g.below(5)) {
+      switch (g.below(7)) {
+        case 5: num = k < 3 ? std::to_string((1ULL << 32) * (unsigned long long)g.range(1, 9) + (unsigned long long)g.range(1000, 5000)) : "32"; break;   // wraps to something small in 32 bits
+        case 6: num = k < 3 ? (g.chance(1, 2) ? "1844674407370955" + std::to_string(g.range(2616, 6616)) : "42949672960000" + std::to_string(g.range(1000, 5000))) : "99"; break;   // beyond 64 bits / far out of range
         case 0: num = "+" + num; break;
         case 1: num = "-" + num; break;
         case 2: num[g.below(num.size())] = "xa eO"[g.below(5)]; break;
@@ -387,6 +389,7 @@ static J plan_c07(uint64_t seed, const std::string &tier, bool secrets, const st
       if (g.chance(15, 100)) op["phin"] = 1;
       if (g.chance(15, 100)) op["stin"] = 1;
       if (have_gs && g.chance(1, 4)) op["stsrc"] = "gs";
+      else if (g.chance(1, 25)) op["stsrc"] = "out";
       if (op.str("k") == "crypt_rn" && g.chance(1, 12)) { static const long sz[] = {-5, 0, 1, 2, 3, 100, 384, 32767, 32769, 40000}; op["size"] = sz[g.below(10)]; op["gseed"] = (long long)g.below(1000); }
       if (op.str("k") == "crypt_r" || (op.str("k") == "crypt_rn" && !op.has("size"))) keyed[(size_t)op.i("obj")] = 0;
       if (op.has("pre") && op.has("obj")) keyed[(size_t)op.i("obj")] = 0;
@@ -458,6 +461,7 @@ static J plan_c05(uint64_t seed, const std::string &tier) {
       Req v = valid_req(g, pool, false, 1); op["ph"] = v.ph.to_json(); op["st"] = v.st.to_json(); op["m"] = v.m;
     }
     pre_scribble(g, op, 5, 10, 5);
+    if (i > 0 && g.chance(1, 12)) op["stsrc"] = "out";   // setting = the object's own output field, whatever the previous call left there
     ops.push(op);
   }
   t["ops"] = ops; p["tasks"].push(t);
@@ -500,7 +504,7 @@ static J plan_c12(uint64_t seed, const std::string &tier) {
   int groups = (int)g.range(1, 3);
   for (int gi = 0; gi < groups; gi++) {
     int mi = (int)g.below(17); unsigned long count = g.chance(3, 4) ? 0 : (mi == 7 || mi == 8 ? 5000 : mi <= 1 ? 2 : mi >= 3 && mi <= 6 ? 5 : mi == 2 ? 6 : mi == 13 ? 7 : 0);
-    int reps = (int)g.range(1, g.chance(1, 10) ? 40 : 6);
+    int reps = (int)g.range(1, g.chance(1, 200) ? 600 : g.chance(1, 10) ? 40 : 6);   // rarely a very long run: per-process counters, reservoirs
     for (int i = 0; i < reps; i++) {
       J op = J::obj(); static const char *ks[] = {"gensalt", "gensalt_rn", "gensalt_ra"};
       op["k"] = ks[g.below(3)];
@@ -531,7 +535,11 @@ static J plan_c14(uint64_t seed, const std::string &tier) {
         case 1: op["blk"] = (long)CDSZ; op["rec"] = (long)CDSZ; break;
         case 2: { long b = (long)CDSZ + g.range(1, 5000); op["blk"] = b; op["rec"] = g.chance(1, 2) ? b : (long)CDSZ; break; }
         case 3: { long b = g.range(1, (long)CDSZ - 1); op["blk"] = b; op["rec"] = g.chance(3, 4) ? b : g.range(1, b); break; }
-        case 4: { long b = g.chance(1, 2) ? (long)CDSZ : g.range(1, 3000); op["blk"] = b; op["rec"] = g.chance(1, 2) ? 0 : -g.range(1, 40000); break; }
+        case 4: {
+          long b = g.chance(1, 2) ? (long)CDSZ : g.range(1, 3000); op["blk"] = b;
+          static const long neg[] = {-1, -2, -32767, -32768, -32769, -65536, -2147483647L - 1, -2147483647L, -2147483647L - 1 + 32767, -2147483647L - 1 + 32768, -2147450880L, -1073741824L};
+          op["rec"] = g.chance(1, 3) ? 0 : g.chance(1, 2) ? -g.range(1, 40000) : neg[g.below(12)]; break;
+        }
         default: { long b = g.range(1, 64); op["blk"] = b; op["rec"] = b; break; }
       }
       if (g.chance(1, 12)) { static const long edge[] = {(long)CDSZ - 1, (long)CDSZ + 1, (long)CDSZ - 2, 1, 2, 3}; long b = edge[g.below(6)]; op["blk"] = b; op["rec"] = g.chance(1, 4) ? b - 1 : b; }
@@ -768,13 +776,25 @@ static J plan_c12b(uint64_t seed, const std::string &tier) {
   J ops = J::arr();
   int n = (int)g.range(1, g.chance(1, 10) ? 24 : 8), faulty = (int)g.below((uint64_t)n + 1);
   int mi = (int)g.below(17);
+  // rarely: a process that lives long with a source that never recovers (same pinned script in every call)
+  bool longrun = g.chance(1, 100); J longscript = J::obj();
+  if (longrun) {
+    n = (int)g.range(200, 700); faulty = g.chance(1, 2) ? n : (int)g.range(100, n);
+    static const char *hard[] = {"enosys*", "eio*", "eintr*", "eperm*"};
+    if (variant & 1) { J a = J::arr(); a.push(hard[g.below(4)]); longscript["getentropy"] = a; }
+    if (variant & 2) { J a = J::arr(); a.push(g.chance(1, 3) ? "short0*" : hard[g.below(4)]); longscript["getrandom"] = a; }
+    if (variant & 4) { J a = J::arr(); a.push(g.chance(1, 3) ? "shortmax*" : hard[g.below(4)]); longscript["sys_getrandom"] = a; }
+    if (g.chance(1, 2)) { J a = J::arr(); a.push(g.chance(1, 2) ? "enoent*" : "emfile*"); longscript["open"] = a; }
+    else { J a = J::arr(); static const char *rd[] = {"short0*", "eio*", "shortmax*", "eintr*", "short:3*"}; a.push(rd[g.below(5)]); longscript["read"] = a; }
+  }
   for (int i = 0; i < n; i++) {
     if (g.chance(1, 3)) mi = (int)g.below(17);
     J op = J::obj(); static const char *ks[] = {"gensalt", "gensalt_rn", "gensalt_ra"};
     op["k"] = ks[g.below(3)];
     if (mi == 16) op["pf"] = J(); else op["pf"] = Bytes(std::string(PREFIX[mi])).to_json();
     op["count"] = 0; op["rb"] = J(); op["nrb"] = 0;
-    if (i < faulty) {
+    if (i < faulty && longrun) op["script"] = longscript;
+    else if (i < faulty) {
       J sc = J::obj();
       auto outcomes = [&](const char *src, std::vector<const char *> kinds, unsigned pct) {
         if (!g.chance(pct, 100)) return;
